@@ -401,7 +401,7 @@ func (h *Hist) randomEvent() string {
 		return "advance-past-cooldown"
 	}
 	if focus == "up" && r.chance(35) {
-		ev = r.pickI(4, 4, 5, 16, 13) // tainted nodes to reuse, force-tainted nodes to remove first, ties, deliveries
+		ev = r.pickI(4, 4, 5, 16, 13, 14) // tainted nodes to reuse, force-tainted nodes to remove first, ties, deliveries, the cloud maximum moves
 	}
 	if focus == "annot" && r.chance(40) && len(nodes) > 0 {
 		// several tainted nodes past their grace periods, most of them carrying the no-delete annotation
@@ -573,6 +573,17 @@ func (h *Hist) randomEvent() string {
 			// parked: the cloud group's minimum, maximum and desired size go to zero while its instances are still around
 			g.Min, g.Max, g.Desired = 0, 0, 0
 			return "asg-park"
+		}
+		if !(o.MinNodes == 0 && o.MaxNodes == 0) && r.chance(30) {
+			// the cloud group's maximum moves across the configured max_nodes: below it now, above it later
+			g.Max = int64(o.MaxNodes + r.rng(-3, 4))
+			if g.Max < g.Desired {
+				g.Max = g.Desired
+			}
+			if g.Max < g.Min+1 {
+				g.Max = g.Min + 1
+			}
+			return "asg-max-swing"
 		}
 		switch which {
 		case 0:
